@@ -556,6 +556,27 @@ func (g *gen) mutMultimap(v reflect.Value, t *Type, nav []NavStep, depth int, st
 	deep := depth >= maxDepth || stack[t.Def] >= maxRecur
 	stack[t.Def]++
 	defer func() { stack[t.Def]-- }()
+	if n >= 61 && n <= 66 && g.r.Chance(2, 3) {
+		// hold the length at the boundary between the values-only and the full encoding and
+		// change values only (no key, no length), at the highest indexes first: the per-element
+		// change mask of the values-only encoding is exercised at its last bits.
+		g.stat("mm-boundary-hold")
+		for _, i := range []int{n - 1, n - 2, g.r.Intn(n)} {
+			if g.budget <= 0 || !g.r.Chance(2, 3) {
+				continue
+			}
+			if vt.Kind.Primitive() {
+				c := &Call{M: "SetValue", Args: []any{i, g.genPrim(vt, call(v, "Value", iv(i))[0])}, Idx: true}
+				if vt.Kind == KFloat64 {
+					c.Tag, c.Get, c.GetI1 = 'F', "Value", i+1
+				}
+				g.do(nav, c)
+			} else {
+				g.mutNode(call(v, "Value", iv(i))[0], vt, with(nav, "Value", i), depth+1, stack)
+			}
+		}
+		return
+	}
 	if g.r.Chance(1, 2) {
 		if vt.Kind.Primitive() && kt.Kind.Primitive() && has(v, "Append") && g.r.Chance(1, 3) {
 			if g.do(nav, &Call{M: "Append", Args: []any{g.genPrim(kt, reflect.Value{}), g.genPrim(vt, reflect.Value{})}, Tag: 'L', Ty: t}) {
